@@ -211,3 +211,8 @@ impl<T: BufRead> BufRead for Take<'_, T> {
         self.inner.consume(amt);
     }
 }
+
+// verification hook (add-only, inert unless built by `cargo kani`, which sets --cfg kani)
+#[cfg(kani)]
+#[path = "/verif/kani/parsing_reader_harness.rs"]
+mod verif_kani;
